@@ -37,6 +37,8 @@ def direct_case(rng):
     lbs = sorted(rng.sample(range(1, 31), rng.randint(1, 4)))
     if rng.random() < 0.3:
         lbs = sorted(set(lbs) | {lbs[0] + 1})          # adjacent lookbacks: N and N+1 share the bumped key space
+    if rng.random() < 0.6:
+        rng.shuffle(lbs)                                # the list of lookbacks need not be ascending
     kind = rng.choice(['momentum', 'sma', 'vol'])
     length = rng.choice([1, 2, 3, 10, 40, 120])
     feed = []
